@@ -170,7 +170,7 @@ def _const_desc(o):
     return 'k%s' % v if v is not None and not isinstance(v, (dict, list)) else 'k'
 
 
-def leaves(fn, o, depth=8, seen=None):
+def leaves(fn, o, depth=14, seen=None):
     """The values an operand is computed from, without any local-variable names: parameters (`self`, `arg2`) with
     their field paths, constants, callee names of call results, the operators and enum variants in between;
     a variable assigned in several places is `var:<type>` (its assignments are events of their own)."""
@@ -179,7 +179,7 @@ def leaves(fn, o, depth=8, seen=None):
     return place_leaves(fn, o[1], depth, seen)
 
 
-def place_leaves(fn, pl, depth=8, seen=None):
+def place_leaves(fn, pl, depth=14, seen=None):
     base = pl[0]
     proj = _proj(pl)
     suffix = ('.' + '.'.join(proj)) if proj else ''
@@ -291,20 +291,20 @@ def condition_sig(fn, s):
                 if nm in PRED_CALLS and sd[2]['a']:
                     tyname, t_lab, f_lab = PRED_CALLS[nm]
                     raw = expand(['0', '1'])
-                    return ('discr(%s:%s)' % (tyname, _fmt(leaves(fn, sd[2]['a'][0], 6))),
+                    return ('discr(%s:%s)' % (tyname, _fmt(leaves(fn, sd[2]['a'][0], 14))),
                             lambda lab: [t_lab if x == '1' else f_lab for x in raw(lab)])
-                args = ';'.join(_fmt(leaves(fn, a_, 6)) for a_ in sd[2]['a'])
+                args = ';'.join(_fmt(leaves(fn, a_, 14)) for a_ in sd[2]['a'])
                 return '%s(%s)' % (nm, args), boolmap
             rv = sd[2]
             if rv[0] == 'discr':
                 tyname, n = _variant_count(fn, rv[1])
                 m = expand([str(i) for i in range(n)]) if n else ident
-                return 'discr(%s:%s)' % (tyname or '?', _fmt(place_leaves(fn, rv[1], 6))), m
+                return 'discr(%s:%s)' % (tyname or '?', _fmt(place_leaves(fn, rv[1], 14))), m
             if rv[0] == 'bin':
-                return '%s(%s;%s)' % (rv[1], _fmt(leaves(fn, rv[2], 6)), _fmt(leaves(fn, rv[3], 6))), boolmap
+                return '%s(%s;%s)' % (rv[1], _fmt(leaves(fn, rv[2], 14)), _fmt(leaves(fn, rv[3], 14))), boolmap
             if rv[0] == 'un':
-                return '%s(%s)' % (rv[1], _fmt(leaves(fn, rv[2], 6))), boolmap
-    return 'val(%s)' % _fmt(leaves(fn, d, 6)), boolmap
+                return '%s(%s)' % (rv[1], _fmt(leaves(fn, rv[2], 14))), boolmap
+    return 'val(%s)' % _fmt(leaves(fn, d, 14)), boolmap
 
 
 def flow_fingerprint(fn, summ):
@@ -338,7 +338,7 @@ def flow_fingerprint(fn, summ):
             f = t['f']
             name = '<fnptr>' if 'ptr' in f else f.get('name')
             if name and name not in NOISE_CALLS:
-                args = ' ; '.join(_fmt(leaves(fn, a_, 8)) for a_ in t['a'])
+                args = ' ; '.join(_fmt(leaves(fn, a_, 14)) for a_ in t['a'])
                 rows['%s(%s)' % (name, args)] += 1
             d = t['d']
             tgt = None
@@ -357,7 +357,7 @@ def flow_fingerprint(fn, summ):
     return sorted(k for k in rows if not k.startswith(('var:() <-', 'var:bool <- k')))
 
 
-def _rv_leaves(fn, rv, depth=8):
+def _rv_leaves(fn, rv, depth=14):
     k = rv[0]
     if k == 'use':
         return leaves(fn, rv[1], depth)
@@ -410,7 +410,7 @@ def events(fn, summ):
             if name and name not in NOISE_CALLS:
                 # the call together with what it is applied to: `empty(self.remaining_input)` under the entry-error condition and
                 # under the header-error condition are different rows (as sets of bare names they would collapse into one)
-                out.append((b, 'c:%s(%s)' % (name, ' ; '.join(_fmt(leaves(fn, a_, 6)) for a_ in t['a']))))
+                out.append((b, 'c:%s(%s)' % (name, ' ; '.join(_fmt(leaves(fn, a_, 14)) for a_ in t['a']))))
             d = t['d']
             if len(d) > 1:
                 base, names = summ.root_of(fn, d)
